@@ -72,6 +72,34 @@ func c18NegEval(cs *core.Case) (bool, string, string) {
 	return true, "", ""
 }
 
+// c18ChksumLayouts: ways in which conforming writers fill the 8-byte checksum
+// field ("octal digits terminated by one or more space or NUL characters"):
+// archive/tar and GNU tar write the first one; star / pax, the Rust tar crate,
+// 4.3BSD and V7 tar the others.
+var c18ChksumLayouts = []string{"%06o\x00 ", "%06o \x00", "%07o\x00", "%07o ", "%06o  ", "%06o\x00\x00", "%6o\x00 "}
+
+// c18FieldValue parses the octal number a writer put into the checksum field.
+func c18FieldValue(f []byte) int {
+	v, digits := 0, 0
+	for _, ch := range f {
+		switch {
+		case ch >= '0' && ch <= '7':
+			v = v<<3 | int(ch-'0')
+			digits++
+		case ch == ' ' || ch == 0:
+			if digits > 0 {
+				return v
+			}
+		default:
+			return -1
+		}
+	}
+	if digits == 0 {
+		return -1
+	}
+	return v
+}
+
 func c18Setup(c *core.Ctx) {
 	c.Register("c18pos", c18PosEval)
 	c.Register("c18neg", c18NegEval)
@@ -156,6 +184,28 @@ func c18Run(c *core.Ctx) {
 									}
 									seen[k] = true
 									distinct++
+									// the same header with its checksum field spelled the way other
+									// conforming writers spell it (the value does not depend on the
+									// field: all eight bytes count as spaces)
+									if v := c18FieldValue(blk[148:156]); v >= 0 {
+										alt := append([]byte{}, b...)
+										for li, lay := range c18ChksumLayouts {
+											f := fmt.Sprintf(lay, v)
+											if len(f) != 8 {
+												continue
+											}
+											copy(alt[148:156], f)
+											pos.In, pos.Strs[1] = alt, desc+fmt.Sprintf(" chksum-layout=%d(%q)", li, f)
+											for _, l := range []uint32{0, 512} {
+												pos.Limit = l
+												c.R.Transitions++
+												c.R.Evals++
+												c.Check(pos)
+											}
+											c.SampleCase("checksum-field-layouts", pos)
+										}
+										pos.In, pos.Strs[1] = b, desc
+									}
 									// corruption sweep
 									full := fullCorrupt < corruptBudget
 									if full {
